@@ -28,8 +28,8 @@ func Count(v reflect.Value) int {
 }
 
 // Distinct returns the values passed in with any duplicates removed.
-func Distinct(v reflect.Value) interface{} {
-	v = jtypes.Resolve(v)
+func Distinct(arg reflect.Value) interface{} {
+	v := jtypes.Resolve(arg)
 
 	// To match the behavior of jsonata-js, if this is a string we should
 	// return the entire string and not dedupe the individual characters
@@ -61,6 +61,11 @@ func Distinct(v reflect.Value) interface{} {
 			distinctValues = reflect.Append(distinctValues, item)
 		}
 		return distinctValues.Interface()
+	}
+
+	// Like jsonata-js, return any other argument unchanged.
+	if arg.IsValid() && arg.CanInterface() {
+		return arg.Interface()
 	}
 
 	return nil
